@@ -20,7 +20,7 @@ inductive Msg where
   | suspect (c : Claim)
   | dead (c : Claim)
   | state (s : PushState)     -- one entry of a push/pull state list; the verdict fields are the receiver's
-  deriving Repr
+  deriving DecidableEq, Repr
 
 structure World where
   nodes : List Node := []
@@ -146,6 +146,38 @@ def World.step (w : World) : COp → World
   | .probeFail x t env => act w x (probeFail t env) none
 
 def World.run (w : World) (ops : List COp) : World := ops.foldl World.step w
+
+def nodeAt (w : World) (y : String) : Option Node := w.nodes.find? (·.cfg.self == y)
+
+/-- the single-node operation a cluster step makes its acting node perform (if any) -/
+def nodeOp (w : World) : COp → Option (String × Op)
+  | .deliver x i env =>
+    match w.pool[i]? with
+    | none => none
+    | some (.alive a) => some (x, .alive a false env)
+    | some (.suspect c) => some (x, .suspect c env)
+    | some (.dead c) => some (x, .dead c env)
+    | some (.state s) => some (x, .merge [withEnv s env] env.now)
+  | .snapshot _ => none
+  | .announce x addr port md vsn env =>
+    match nodeAt w x with
+    | none => none
+    | some n =>
+      match lookup n.recs n.cfg.self with
+      | some me => some (x, .update me.addr me.port md me.vsn env)
+      | none => if vsn.length = 6 then some (x, .update addr port md vsn env) else none
+  | .leave x env => some (x, .leave env)
+  | .fire x node ca env => some (x, .fire node ca env)
+  | .reap x => some (x, .reap)
+  | .age x name => some (x, .age name)
+  | .probeFail x t env =>
+    match nodeAt w x with
+    | none => none
+    | some n =>
+      if t == n.cfg.self then none
+      else match lookup n.recs t with
+        | none => none
+        | some r => some (x, .suspect { inc := r.inc, node := t, frm := n.cfg.self } env)
 
 /-- a cluster that has not started: distinct names, nothing known, nothing in flight -/
 def Fresh (w : World) : Prop :=
